@@ -47,10 +47,27 @@ pub fn run(rng: &mut Rng, n: usize, rep: &mut Report) {
             bk.config.fixed_price = I80F48::from_num(p).into();
             s.w.set_bank(&key, &bk);
         }
+        // in some worlds the collateral has a LOW initial weight and the liquidator is itself leveraged (debt in a third
+        // bank, close to its margin): paying out of its deposit then costs it more weighted collateral than it gains
+        let stress = s.banks.len() >= 3 && rng.chance(1, 3);
+        let w_init: f64 = if stress { 0.2 } else { 0.8 };
+        if stress {
+            let key = s.banks[0].bank;
+            let mut bk = s.w.bank(&key);
+            bk.config.asset_weight_init = I80F48::from_num(0.2).into();
+            bk.config.asset_weight_maint = I80F48::from_num(0.5).into();
+            s.w.set_bank(&key, &bk);
+            let key2 = s.banks[2].bank;
+            let mut b2 = s.w.bank(&key2);
+            b2.config.deposit_limit = u64::MAX;
+            b2.config.borrow_limit = u64::MAX;
+            b2.config.fixed_price = I80F48::from_num(1).into();
+            s.w.set_bank(&key2, &b2);
+        }
         let (d0, d1) = (s.w.mint_decimals(&s.banks[0].mint) as i32, s.w.mint_decimals(&s.banks[1].mint) as i32);
         let dep = 1_000_000_000 * (1 + rng.below(50));
         let dep_value = (dep as f64) / 10f64.powi(d0) * pa0;
-        let liq_dep = ((dep_value * 50.0 / pl) * 10f64.powi(d1)) as u64 + 1_000_000;
+        let liq_dep = ((dep_value * (if stress { 1.2 } else { 50.0 }) / pl) * 10f64.powi(d1)) as u64 + 1_000_000;
         let setup = [
             Act::Deposit { u: 0, b: 0, amt: dep, upto: false },
             Act::Deposit { u: 1, b: 1, amt: liq_dep, upto: false },
@@ -60,15 +77,27 @@ pub fn run(rng: &mut Rng, n: usize, rep: &mut Report) {
             done += 1;
             continue;
         }
-        let max_b = dep_value * 0.8 / 1.2 / pl * 10f64.powi(d1);
+        let max_b = dep_value * w_init / 1.2 / pl * 10f64.powi(d1);
         let bor = ((max_b * (0.7 + 0.28 * (rng.below(100) as f64) / 100.0)) as u64).max(1);
         if !matches!(s.step(&Act::Borrow { u: 0, b: 1, amt: bor }, &mut scratch), Some(Ok(()))) {
             rep.bump("prepare_failed");
             done += 1;
             continue;
         }
+        if stress {
+            // someone funds the third bank; the liquidator borrows there up to 90-99 % of what its deposit allows
+            let d2 = s.w.mint_decimals(&s.banks[2].mint) as i32;
+            let liq_value = (liq_dep as f64) / 10f64.powi(d1) * pl;
+            let cap = liq_value * 0.8 / 1.2 * 10f64.powi(d2);
+            let other = if s.users.len() > 2 { 2 } else { 0 };
+            let _ = s.step(&Act::Deposit { u: other, b: 2, amt: (cap * 2.0) as u64 + 1_000_000, upto: false }, &mut scratch);
+            let x = (cap * (0.90 + 0.09 * (rng.below(100) as f64) / 100.0)) as u64;
+            if matches!(s.step(&Act::Borrow { u: 1, b: 2, amt: x.max(1) }, &mut scratch), Some(Ok(()))) {
+                rep.bump("stressed_liquidator");
+            }
+        }
         // the liquidator sometimes already holds a debt in the asset bank / a deposit in the asset bank
-        if rng.chance(1, 3) {
+        if !stress && rng.chance(1, 3) {
             let _ = s.step(&Act::Deposit { u: 1, b: 0, amt: dep / 3 + 1, upto: false }, &mut scratch);
         }
         s.w.advance(*rng.pick(&[0i64, 60, 86400]));
